@@ -157,6 +157,11 @@ SPECIAL = [
                                {"type": "record", "name": "Pt", "namespace": "", "fields": [{"name": "x", "type": "int"}]},
                                {"type": "fixed", "name": "Fx", "namespace": "", "size": 1}, {"type": "enum", "name": "Colour", "symbols": ["BLUE"]}]},
         {"name": "v", "type": ["null", "Colour", "string"]}]}),
+    ("error-branches", {"type": "record", "name": "Reply", "namespace": "rpc", "fields": [
+        {"name": "u", "type": ["null", "string", {"type": "error", "name": "Oops", "fields": [{"name": "msg", "type": "string"}]},
+                               {"type": "error", "name": "other.Denied", "fields": [{"name": "code", "type": "int"}]},
+                               {"type": "record", "name": "Fine", "fields": [{"name": "v", "type": "long"}]}]},
+        {"name": "again", "type": ["null", "Oops", "other.Denied"]}]}),
     ("deep-map-values", {"type": "map", "values": {"type": "record", "name": "Person", "fields": [
         {"name": "name", "type": "string"},
         {"name": "contact", "type": {"type": "record", "name": "Contact", "fields": [{"name": "email", "type": "string"}, {"name": "phone", "type": ["null", "string", {"type": "array", "items": "int"}]}]}}]}}),
@@ -195,6 +200,9 @@ def special_data(label, node, defs):
         return out
     if label == "map-keys":
         return [{"name": "n", "m": m, "after": 7} for m in ({}, {"name": 1}, {"after": 2, "m": 3}, {"": 4}, {"": 5, "x": 6}, {"é\"\\\n": 8}, {"k": 9, "name": 10, "after": 11})]
+    if label == "error-branches":
+        return [{"u": ("rpc.Oops", {"msg": "m"}), "again": None}, {"u": ("other.Denied", {"code": 7}), "again": ("rpc.Oops", {"msg": "x"})},
+                {"u": ("rpc.Fine", {"v": 1}), "again": ("other.Denied", {"code": -1})}, {"u": "s", "again": None}, {"u": None, "again": None}]
     if label == "deep-map-values":
         return [{"a": {"name": "n", "contact": {"email": "e", "phone": "555"}}}, {"a": {"name": "n", "contact": {"email": "e", "phone": None}}, "b": {"name": "m", "contact": {"email": "f", "phone": [1, 2]}}},
                 {"x": {"name": "", "contact": {"email": "", "phone": "1"}}, "y": {"name": "q", "contact": {"email": "r", "phone": "2"}}, "z": {"name": "s", "contact": {"email": "t", "phone": None}}}, {}]
